@@ -3,7 +3,7 @@ import negsim
 
 
 def run(chk):
-    negsim.run_check(chk, "C13", [("deadlines", negsim.deadline_scenarios), ("flags", negsim.flag_scenarios)], 500)
+    negsim.run_check(chk, "C13", [("deadlines", negsim.deadline_scenarios), ("flags", negsim.flag_scenarios), ("refused-call", negsim.refused_call_scenarios)], 500)
 
 
 def replay(path):
